@@ -174,7 +174,23 @@ def rule_duplicated_paths(ctx, rep, rid: str) -> None:
         rep.bad(rid, "binary-loop", "the precedence-climbing loops of _parse_binary_expression and _continue_binary_expression differ: an expression that starts with a parenthesis is parsed with different precedence/associativity", b.loc)
     # continuation after a parenthesised primary
     cont = t.method("Parser", "_continue_parsing_expression")
-    txt = " ".join(_body_texts(cont))
+    # what is applied to the operand after each inner `)`: the continuation calls of the paren-closing loop
+    prim = t.method("Parser", "_parse_primary_expression")
+    chain = []
+    for n in prim.own_nodes():
+        if isinstance(n, ast.For) and any("RPAREN" in norm(x) for x in n.body):
+            for x in ast.walk(n):
+                if isinstance(x, ast.Assign) and isinstance(x.value, ast.Call) and isinstance(x.value.func, ast.Attribute) and norm(x.value.func.value) == "self" and len(x.value.args) >= 1 and norm(x.value.args[0]) == norm(x.targets[0]):
+                    m = t.find_method(prim.cls, x.value.func.attr)
+                    if m is not None:
+                        chain.append(m)
+    if not chain:
+        raise AnalysisError("continuation after a parenthesised primary not found")
+    txt = " ".join(" ".join(_body_texts(m)) for m in chain)
+    order_ok = True
+    names = [m.name for m in chain]
+    if any("postfix" in nm for nm in names) and cont.name in names:
+        order_ok = min(i for i, nm in enumerate(names) if "postfix" in nm) < names.index(cont.name)
     levels = {
         "postfix": ("_parse_postfix" in txt or "_continue_postfix" in txt or "TokenType.DOT" in txt),
         "binary": "_continue_binary_expression" in txt,
@@ -187,7 +203,11 @@ def rule_duplicated_paths(ctx, rep, rid: str) -> None:
         if present:
             rep.ok(rid, key)
         else:
-            rep.bad(rid, key, f"_continue_parsing_expression does not continue at the {lvl} level after a parenthesised primary: `((a).b)`, `((f)(1))`, `((a)[1])` are rejected although `(a).b` parses (redundant parentheses change the outcome)", cont.loc)
+            rep.bad(rid, key, f"after an inner `)` the parser does not continue at the {lvl} level ({' then '.join(names)}): `((a).b)`, `((f)(1))`, `((a)[1])` are rejected although `(a).b` parses (redundant parentheses change the outcome)", cont.loc)
+    if order_ok:
+        rep.ok(rid, "paren-continuation:order")
+    else:
+        rep.bad(rid, "paren-continuation:order", "after an inner `)` operators are applied before member access/calls: `((a) + b.c)` style regrouping", prim.loc)
 
 
 def reference_targets_ok(ctx) -> bool:
